@@ -117,13 +117,39 @@ func collectBlocks(nodes []gen.Node, origin string) map[string]blockDef {
 	return m
 }
 
+// collectMacros: the macros of a template, wherever their definitions stand (at the top, inside a condition, a
+// loop, a block, a capture, a filter section, another macro): an import or from-import sees them all.
 func collectMacros(nodes []gen.Node) map[string]*gen.NMacro {
 	m := map[string]*gen.NMacro{}
-	for _, n := range nodes {
-		if mc, ok := n.(*gen.NMacro); ok {
-			m[mc.Name] = mc
+	var walk func(ns []gen.Node)
+	walk = func(ns []gen.Node) {
+		for _, n := range ns {
+			switch n := n.(type) {
+			case *gen.NMacro:
+				m[n.Name] = n
+				walk(n.Body)
+			case *gen.NBlock:
+				walk(n.Body)
+			case *gen.NIf:
+				for _, b := range n.Bodies {
+					walk(b)
+				}
+				walk(n.Else)
+			case *gen.NFor:
+				walk(n.Body)
+				walk(n.Else)
+			case *gen.NSetCap:
+				walk(n.Body)
+			case *gen.NFilter:
+				walk(n.Body)
+			case *gen.NEmbed:
+				for _, b := range n.Blocks {
+					walk(b.Body)
+				}
+			}
 		}
 	}
+	walk(nodes)
 	return m
 }
 
